@@ -145,6 +145,19 @@ Proof.
 Qed.
 
 
+Lemma dec_edges t n k : t_lo t ≠ 0%Z → t_hi t ≠ 0%Z →
+  (if decide (absn (t_hi t) = n) then Nat.pred else id)
+    ((if decide (absn (t_lo t) = n) then Nat.pred else id) (edges_to t n + k)) = k.
+Proof.
+  intros Hl Hh. unfold edges_to.
+  destruct (decide (absn (t_lo t) = n)) as [E1|E1];
+  destruct (decide (absn (t_hi t) = n)) as [E2|E2].
+  - rewrite !decide_True by done. done.
+  - rewrite decide_True, decide_False by tauto. done.
+  - rewrite decide_False, decide_True by tauto. done.
+  - rewrite !decide_False by tauto. done.
+Qed.
+
 (** ** What one removal preserves *)
 Lemma W_gc_del s u t : W s → succ s !! u = Some t → u ≠ 1%positive →
   indeg (succ s) u = 0 → W (gc_del s u t).
@@ -193,9 +206,8 @@ Proof.
     assert (n ≠ u ∧ n ∈ dom (succ s)) as [Hnu Hnd] by set_solver.
     rewrite refc_gc_del by done. rewrite (H1 n Hnd).
     change (succ (gc_del s u t)) with (delete u (succ s)).
-    rewrite (indeg_delete (succ s) u t n Ht). unfold edges_to.
-    destruct (decide (absn (t_lo t) = n)), (decide (absn (t_hi t) = n));
-      repeat case_decide; try naive_solver; try lia; cbn; f_equal; lia.
+    rewrite (indeg_delete (succ s) u t n Ht). cbn [fmap option_fmap option_map].
+    f_equal. rewrite <- Nat.add_assoc. apply dec_edges; [done|lia].
   - intros n Hn. change (succ (gc_del s u t)) with (delete u (succ s)) in Hn.
     rewrite dom_delete_L in Hn.
     destruct (decide (n = u)) as [->|]; [lia|]. apply H2. set_solver.
